@@ -34,7 +34,7 @@ func runC09(c *Ctx) {
 	c.Rule("C09.R7", "WIRE", "every exception is applied (complete scan of a complete exception list)", 2)
 	checkKeywordTables(c, "C09.R8")
 	if !c.noImports {
-		importRules(c, runC10, map[string]string{"C10.R9": "C09.R9", "C10.R12": "C09.R9"}, map[string]string{"C09.R9": "rewrite values are parsed whole, so two rewrites with different values stay different and an exception for one leaves the other; the two forms of a CNAME rewrite store the same text (shared with C10.R9, C10.R12)"})
+		importRules(c, runC10, map[string]string{"C10.R9": "C09.R9", "C10.R12": "C09.R9", "C10.R13": "C09.R9"}, map[string]string{"C09.R9": "rewrite values are parsed whole, so two rewrites with different values stay different and an exception for one leaves the other; the two forms of a CNAME rewrite store the same text (shared with C10.R9, C10.R12)"})
 	}
 
 	a := &anchors{c: c, rule: "C09.R1"}
